@@ -72,9 +72,11 @@ func VerifyUnit(prog *Program, specs *Specs, fn *ssa.Function, ct *Contract, opt
 		x.maxPaths = opts.MaxPaths
 	}
 	x.assumeFalseAtExit = opts.ProbeExit
+	x.known = opts.Known
 	st := &State{x: x, regs: map[ssa.Value]Val{}, cells: map[*Cell]Val{}, heap: map[string]Term{}, defers: map[int][]deferred{}, fresh: map[string]bool{}, loopSnap: map[string][]Term{}}
 	fr := x.newFrame(fn, nil)
 	fr.top = true
+	x.topFrame = fr
 	res := &UnitResult{Key: fullKey(fn), Aborted: x.aborted, ClauseUse: map[string]int{}}
 	x.guard(st, func() {
 		// parameters: unconstrained values of their types
@@ -87,6 +89,10 @@ func VerifyUnit(prog *Program, specs *Specs, fn *ssa.Function, ct *Contract, opt
 			pvals = append(pvals, v)
 		}
 		x.bindParams(st, fn, pvals)
+		x.entryRegs = map[ssa.Value]Val{}
+		for k, v := range st.regs {
+			x.entryRegs[k] = v
+		}
 		if fn.Signature.Recv() != nil && len(pvals) > 0 && pvals[0].K == VTerm && pvals[0].T.Sort == SRef && (ct == nil || !ct.Flags["nilrecv"]) {
 			// methods of non-handle types are never called on a nil receiver (handles declare nilrecv)
 			st.assume(Not(Eq(pvals[0].T, TNull)))
@@ -143,6 +149,7 @@ func VerifyUnit(prog *Program, specs *Specs, fn *ssa.Function, ct *Contract, opt
 type UnitOpts struct {
 	MaxPaths  int
 	ProbeExit bool
+	Known     []*KnownFinding
 }
 
 // atExit: postconditions, type invariants of the receiver, frame, lock balance.
@@ -205,6 +212,7 @@ func (x *Exec) atExit(fr *Frame, st *State, results []Val, pvals []Val) {
 
 // checkNoAssume emits a check without assuming the goal afterwards (independent postconditions).
 func (st *State) checkNoAssume(o *Obligation, goal Term) {
+	goal = st.x.applyKnown(o, goal)
 	o.Path = strings.Join(st.path, ">")
 	o.Goal = goal.S
 	st.items = append(st.items, Item{Kind: ItCheck, Text: goal.S, Obl: o})
@@ -784,4 +792,22 @@ func (x *Exec) staticModArrays(fn *ssa.Function, m string, ws *writeSet) bool {
 		cur = fv.Type()
 	}
 	return false
+}
+
+// applyKnown: an obligation listed as a known finding with a `when` predicate is proved on
+// the complement of the known-bad region (goal' = when || goal, `when` over the entry state).
+func (x *Exec) applyKnown(o *Obligation, goal Term) Term {
+	for _, kf := range x.known {
+		if kf.Kind != "known" || kf.WhenNode == nil || kf.Obl != o.ID {
+			continue
+		}
+		ent := &State{x: x, heap: map[string]Term{}, regs: x.entryRegs, cells: map[*Cell]Val{}, fresh: map[string]bool{}}
+		env := x.specEnv(x.topFrame, ent, nil)
+		w, err := env.EvalBool(kf.WhenNode)
+		if err != nil {
+			x.abort("known finding %q: when: %v", kf.Text, err)
+		}
+		goal = Or(w, goal)
+	}
+	return goal
 }
